@@ -36,6 +36,9 @@ checks = {
  "C16": dict(cat="exploration", tech="deterministic simulation of mixed connection outcomes; metric registry compared with the outcome multiset",
    text="1-8 concurrent connections with every outcome (h2, http/1.1, no ALPN, plain HTTP, garbage, stalls, handshake timeout, aborts during / after the handshake and mid-request, idle keep-alive) and controller-chosen completion order; fingerproxy_requests_total gathered from the real registry must equal the multiset implied by the outcomes, sum to the number of ended connections, and never run ahead of ended connections at intermediate quiescent points.",
    note="A client that aborts right after a TLS 1.3 handshake cannot know whether the server side completed; such connections are admitted with either label (the sum stays exact).", ref="7/C16"),
+ "C17": dict(cat="exploration", tech="deterministic simulation; cancellation as a controller action at every decision index; simulated clock for the Shutdown poll",
+   text="The server context is cancelled at a drawn decision index of a workload with handshakes in progress / stalled, idle keep-alive HTTP/1.1, open HTTP/2 and HTTP/1.1 exchanges held in flight by a slow back-end; also before Serve and repeatedly. Oracle: nothing attempted after the cancel reaches the back-end or gets an answer; the proxy writes nothing more on an HTTP/1.1 connection after Serve has returned (an exchange still in flight would); Serve returns http.ErrServerClosed with the listener closed within 2 simulated seconds of the cancel / last exchange; idle HTTP/1.1 connections are closed.",
+   note="Observation O6: in-flight exchanges are cancelled (504) on shutdown because request contexts derive from the server context; the property does not promise their success.", ref="7/C17"),
  "C15": dict(cat="exploration", tech="deterministic simulation; routing oracle (exactly one of local answer / back-end record)",
    text="User-Agent variants x methods x protocols x probe flag through the real flag wiring; each request must be answered locally or seen by the back-end, never both or neither, according to the prefix predicate.",
    note="HTTP/1.1 strips optional whitespace around field values before the predicate applies; the oracle accounts for that.", ref="7/C15"),
